@@ -16,6 +16,20 @@ class Color(aenum.Enum, shape=unsigned(2)):
     D = 3
 
 
+class Sparse(aenum.Enum, shape=unsigned(3)):
+    """an enumeration that names only some of the values its shape can hold"""
+    IDLE = 0
+    RUN = 1
+    HALT = 2
+    FAULT = 5
+
+
+class Flags(aenum.Flag, shape=unsigned(4)):
+    A = 1
+    B = 2
+    C = 8
+
+
 KINDS = ["R", "W", "RW", "RW1C", "RW1S", "RES"]
 
 
@@ -33,6 +47,9 @@ def run_impl(case):
     shp = rnd.choice(["u", "u", "u", "s", "e"])
     if shp == "e":
         w, shape = 2, rnd.choice([Color, gpio.PinMode])
+        xe = lib.rng_for(case["seed"], case["idx"], 1232).random()
+        if xe < 0.35:
+            w, shape = (3, Sparse) if xe < 0.2 else (4, Flags)      # values without a name are values all the same
     else:
         w = rnd.choice([0, 1, 2, 3, 3, 4, 5, 8, 9])
         if shp == "s" and w == 0:
@@ -41,10 +58,14 @@ def run_impl(case):
     mask = (1 << w) - 1
     init = lib.bits(rnd, w) if w else 0
     conv = (lambda v: to_signed(v, w)) if shp == "s" else (lambda v: v)
+    if shape is Sparse:
+        init = [0, 1, 2, 5][init % 4]             # an initial value must be a member …
+    elif shape is Flags:
+        init &= 0b1011                            # … or a combination of flags
     cls = {"R": action.R, "W": action.W, "RW": action.RW, "RW1C": action.RW1C, "RW1S": action.RW1S,
            "RES": rnd.choice([action.ResRAW0, action.ResRAWL, action.ResR0WA, action.ResR0W0])}[kind]
     if kind in ("RW", "RW1C", "RW1S"):
-        dut = cls(shape, init=conv(init))
+        dut = cls(shape, init=(shape(init) if shape in (Sparse, Flags) else conv(init)))
     else:
         dut = cls(shape)
         init = 0
@@ -56,7 +77,7 @@ def run_impl(case):
     reg, off = None, 0
     if inreg:
         from amaranth_soc import csr
-        kw = {"init": conv(init)} if kind in ("RW", "RW1C", "RW1S") else {}
+        kw = {"init": (shape(init) if shape in (Sparse, Flags) else conv(init))} if kind in ("RW", "RW1C", "RW1S") else {}
         w0, w1 = rnd2.randint(0, 5), rnd2.randint(0, 5)
         coll = rnd2.random() < 0.5
         first = rnd2.random() < 0.5           # the field under test comes before / after the sibling it collides with
